@@ -75,6 +75,9 @@ def main(argv):
     with ProcessPoolExecutor(max_workers=14) as ex:
         for sid, res, msgs in ex.map(run_one, jobs):
             own = sid.split('-')[0]
+            if '_' in res:
+                print(f"{sid}  {res['_']}")
+                continue
             viol = [p for p, c in res.items() if c == 1]
             und = [p for p, c in res.items() if c == 2]
             if sid in benign:
